@@ -1,6 +1,7 @@
 package main
 
 import (
+	"sync"
 	"go/types"
 	"fmt"
 	"strings"
@@ -20,6 +21,15 @@ type libModel struct {
 var libModels = map[string]*libModel{}
 
 const builderHeap = "H.strings.Builder.out"
+
+// ghost content of io.Writer values that are not strings.Builders, indexed by writerId(w)
+const writerHeap = "H.io.Writer.out"
+
+// ghost state of a *bufio.Scanner: the reader it scans and the number of lines delivered so far.
+// bufio.lines(r) is the sequence of lines the scanner delivers from reader r before Scan returns false,
+// bufio.err(r) the error Err() reports afterwards (nil at a clean end of input).
+const scanSrcHeap = "H.bufio.Scanner.src"
+const scanIdxHeap = "H.bufio.Scanner.idx"
 
 func builderMods(x *Exec, args []Val, known []bool, m *Mods) {
 	if len(args) > 0 && known[0] && args[0].S == "@fresh" {
@@ -144,9 +154,54 @@ func init() {
 		st.assume(fmt.Sprintf("(=> (= (Seq_Err.len %s) 0) (= %s ErrNil))", l, r))
 		return []Val{{S: "Err", T: r}}
 	})
+	libModels["bufio.NewScanner"] = &libModel{doc: "a new scanner over the reader: delivers bufio.lines(r) one by one, then reports bufio.err(r)",
+		mods: func(x *Exec, args []Val, known []bool, m *Mods) { m.All = true },
+		run: func(x *Exec, st *State, a []Val, site ssa.Instruction) []Val {
+			r := st.fresh("scanref", "Int")
+			st.assume(fmt.Sprintf("(= %s %s)", r, st.alloc))
+			na := st.fresh("alloc", "Int")
+			st.assume(fmt.Sprintf("(= %s (+ %s 1))", na, st.alloc))
+			st.alloc = na
+			src := st.heap(scanSrcHeap, "Any")
+			st.setHeap(scanSrcHeap, "Any", fmt.Sprintf("(store %s %s %s)", src, r, x.term(st, a[0], true)))
+			idx := st.heap(scanIdxHeap, "Int")
+			st.setHeap(scanIdxHeap, "Int", fmt.Sprintf("(store %s %s 0)", idx, r))
+			return []Val{{S: "Int", T: r, GT: site.(*ssa.Call).Type()}}
+		}}
+	scanMods := func(x *Exec, args []Val, known []bool, m *Mods) {
+		if len(args) > 0 && known[0] && args[0].T != "" {
+			m.addBase(scanIdxHeap, "Int", args[0].T)
+		} else {
+			m.heapMod(scanIdxHeap, "Int").Any = true
+		}
+	}
+	libModels["bufio.(*Scanner).Scan"] = &libModel{doc: "true and advances while lines remain; false afterwards", mods: scanMods,
+		run: func(x *Exec, st *State, a []Val, site ssa.Instruction) []Val {
+			r := x.term(st, a[0], false)
+			st.check(x.key+"/safety/nil", fmt.Sprintf("(not (= %s 0))", r), "nil *bufio.Scanner at "+x.pos(site.Pos()))
+			src := fmt.Sprintf("(select %s %s)", st.heap(scanSrcHeap, "Any"), r)
+			idxh := st.heap(scanIdxHeap, "Int")
+			idx := fmt.Sprintf("(select %s %s)", idxh, r)
+			more := fmt.Sprintf("(< %s (Seq_Str.len (bufio.lines %s)))", idx, src)
+			st.setHeap(scanIdxHeap, "Int", fmt.Sprintf("(store %s %s (ite %s (+ %s 1) %s))", idxh, r, more, idx, idx))
+			return []Val{{S: "Bool", T: more}}
+		}}
+	libModels["bufio.(*Scanner).Bytes"] = pure("the line most recently delivered by Scan (as bytes: modelled as a string)", func(x *Exec, st *State, a []Val, site ssa.Instruction) []Val {
+		r := x.term(st, a[0], false)
+		src := fmt.Sprintf("(select %s %s)", st.heap(scanSrcHeap, "Any"), r)
+		idx := fmt.Sprintf("(select %s %s)", st.heap(scanIdxHeap, "Int"), r)
+		return []Val{{S: "Str", T: fmt.Sprintf("(Seq_Str.nth (bufio.lines %s) (- %s 1))", src, idx)}}
+	})
+	libModels["bufio.(*Scanner).Text"] = libModels["bufio.(*Scanner).Bytes"]
+	libModels["bufio.(*Scanner).Err"] = pure("the error that ended the scan: bufio.err(r), nil at a clean end of input", func(x *Exec, st *State, a []Val, site ssa.Instruction) []Val {
+		r := x.term(st, a[0], false)
+		src := fmt.Sprintf("(select %s %s)", st.heap(scanSrcHeap, "Any"), r)
+		return []Val{{S: "Err", T: fmt.Sprintf("(bufio.err %s)", src)}}
+	})
 	libModels["fmt.Fprintf"] = &libModel{doc: "appends some string to a strings.Builder writer; other writers are not modelled",
 		mods: func(x *Exec, args []Val, known []bool, m *Mods) {
 			m.heapMod(builderHeap, "Out").Any = true
+			m.heapMod(writerHeap, "Out").Any = true
 		},
 		run: func(x *Exec, st *State, a []Val, site ssa.Instruction) []Val {
 			if pk := x.pkgOf(x.fn); pk != nil && pk.Path() == modPath {
@@ -154,9 +209,32 @@ func init() {
 				// ("NULL /* unhandled ... */"): these must be unreachable (C05)
 				st.check(x.key+"/unreachable/placeholder", "false", "an internal placeholder would reach the output at "+x.pos(site.Pos()))
 			}
-			if a[0].Inner != nil && a[0].Inner.S == "Int" {
+			isBuilder := false
+			if a[0].Inner != nil && a[0].Inner.GT != nil {
+				if pt, ok := a[0].Inner.GT.Underlying().(*types.Pointer); ok {
+					if nt, ok := pt.Elem().(*types.Named); ok && nt.Obj().Pkg() != nil && nt.Obj().Pkg().Path() == "strings" && nt.Obj().Name() == "Builder" {
+						isBuilder = true
+					}
+				}
+			}
+			if a[0].Inner != nil && a[0].Inner.S == "Int" && (isBuilder || a[0].Inner.GT == nil) {
 				r, out := x.builderOut(st, *a[0].Inner)
 				x.setBuilderOut(st, r, fmt.Sprintf("(OStr %s %s)", out, st.fresh("fprintf", "Str")))
+			} else if a[0].S == "Any" && a[0].Inner == nil {
+				// some other writer: ghost content. The one format the command-line tool uses is modelled
+				// exactly ("%s\n\n" with one string operand); anything else appends an unknown string
+					w := fmt.Sprintf("(writerId %s)", x.term(st, a[0], true))
+				h := st.heap(writerHeap, "Out")
+				cur := fmt.Sprintf("(select %s %s)", h, w)
+				nw := fmt.Sprintf("(OStr %s %s)", cur, st.fresh("fprintf", "Str"))
+				if len(a) >= 3 {
+					if f, ok := x.U().litText(x.term(st, a[1], false)); ok && f == "%s\n\n" {
+						if el := a[2].Elems; len(el) == 1 && el[0].Inner != nil && el[0].Inner.S == "Str" {
+							nw = fmt.Sprintf("(OByte (OByte (OStr %s %s) 10) 10)", cur, x.term(st, *el[0].Inner, false))
+						}
+					}
+				}
+				st.setHeap(writerHeap, "Out", fmt.Sprintf("(store %s %s %s)", h, w, nw))
 			}
 			return []Val{{S: "Int", T: st.fresh("n", "Int")}, {S: "Err", T: st.fresh("werr", "Err")}}
 		}}
@@ -226,6 +304,49 @@ func init() {
 	})
 }
 
+// pureStringsModel: any function of package strings whose parameters and results are strings, integers or
+// booleans is a deterministic function of its arguments: modelled as an uninterpreted function (declared on
+// demand), so code that starts using one stays inside the verifiable subset and its effect is "some function
+// of the arguments the specification does not know".
+var pureStringsFuncs = map[string]string{} // smt name -> declaration
+var pureStringsMu sync.Mutex
+
+func pureStringsModel(key string, sig *types.Signature, U *Universe) *libModel {
+	if !strings.HasPrefix(key, "strings.") || strings.Contains(key, "(") || sig == nil || sig.Recv() != nil || sig.Variadic() {
+		return nil
+	}
+	basic := func(t types.Type) bool {
+		b, ok := t.Underlying().(*types.Basic)
+		return ok && b.Info()&(types.IsString|types.IsInteger|types.IsBoolean) != 0
+	}
+	var as []string
+	for i := 0; i < sig.Params().Len(); i++ {
+		if !basic(sig.Params().At(i).Type()) {
+			return nil
+		}
+		as = append(as, U.sortOf(sig.Params().At(i).Type()))
+	}
+	if sig.Results().Len() != 1 || !basic(sig.Results().At(0).Type()) {
+		return nil
+	}
+	rs := U.sortOf(sig.Results().At(0).Type())
+	name := "lib." + key
+	pureStringsMu.Lock()
+	defer pureStringsMu.Unlock()
+	pureStringsFuncs[name] = fmt.Sprintf("(declare-fun %s (%s) %s)\n", name, strings.Join(as, " "), rs)
+	return &libModel{doc: "uninterpreted function of its arguments", run: func(x *Exec, st *State, a []Val, site ssa.Instruction) []Val {
+		var ts []string
+		for _, v := range a {
+			ts = append(ts, x.term(st, v, false))
+		}
+		t := name
+		if len(ts) > 0 {
+			t = "(" + name + " " + strings.Join(ts, " ") + ")"
+		}
+		return []Val{{S: rs, T: t}}
+	}}
+}
+
 func findLibModel(key string) *libModel {
 	if m, ok := libModels[key]; ok {
 		return m
@@ -259,4 +380,10 @@ const libPrelude = `; ---- assumed library vocabulary (A5)
 (define-fun gdiv ((a Int) (b Int)) Int (ite (= (>= a 0) (> b 0)) (div (abs a) (abs b)) (- (div (abs a) (abs b)))))
 (define-fun grem ((a Int) (b Int)) Int (- a (* b (gdiv a b))))
 (declare-fun SpanOf (Node) Span)
+`
+
+const bufioPrelude = `; ---- assumed vocabulary of bufio.Scanner and of writers other than strings.Builder
+(declare-fun bufio.lines (Any) Seq_Str)
+(declare-fun bufio.err (Any) Err)
+(declare-fun writerId (Any) Int)
 `
